@@ -127,8 +127,23 @@ def _fan_out(ck, repo, nf):
         except Exception:
             raise AnalysisError(f"{site}: cannot bind `{short(c, 60)}` to LoggerBase.{name}")
         sc = Scope(cfg, mi, {p: Poly.atom(p, {p}, {p}) for p in params}, site)
-        got = {p: (nf.poly(b[p], sc, n.id).canon() if p in b and not isinstance(b[p], list) else None) for p in bparams}
-        # a parameter may be omitted only if it is passed through unchanged by default, i.e. never: all must be forwarded
+        # every member receives the call's own arguments: each forwarded value is the parameter itself, with no other definition of that
+        # name reaching the member call (a location resolved before the fan-out replaces the caller's None)
+        got = {}
+        for p in bparams:
+            a_ = b.get(p)
+            if a_ is None or isinstance(a_, list):
+                got[p] = None
+            elif isinstance(a_, ast.Name):
+                ds_ = cfg.defs_of(n.id, a_.id)
+                if a_.id == p and ds_ and all(d_.kind == "param" for d_ in ds_):
+                    got[p] = p
+                elif a_.id == p:
+                    got[p] = f"{p} (reassigned at line(s) {sorted({cfg.nodes[d_.node].lineno for d_ in ds_ if d_.kind != 'param'})})"
+                else:
+                    got[p] = nf.poly(a_, sc, n.id).canon()
+            else:
+                got[p] = nf.poly(a_, sc, n.id).canon()
         okf = all(got[p] == p for p in bparams)
         ck.ob("R1-fan-out", site, "forwards-all-arguments", okf, f"{name}({', '.join(f'{p}={got[p]}' for p in bparams)})",
               "" if okf else f"every member must receive the identical record: each of ({', '.join(bparams)}) forwarded unchanged to the parameter of the same name", loc(mi, c))
